@@ -995,6 +995,31 @@ def input_masks(draw, spec, routes=('pnc',)):
     return mk
 
 
+def as_layout(spec, arr):
+    """the same values in a non-C-contiguous memory layout
+    (spec['memlayout']): 'swap' = stored with the last two axes exchanged
+    and presented through swapaxes (each 2-D slab Fortran-contiguous), 'F' =
+    Fortran-ordered array, 'stride' = every second element of a wider
+    array.  The writers must put the logical (C order) values on disk."""
+    kind = spec.get('memlayout')
+    if kind == 'swap' and arr.ndim >= 2:
+        return np.ascontiguousarray(arr.swapaxes(-1, -2)).swapaxes(-1, -2)
+    if kind == 'F':
+        return np.asfortranarray(arr)
+    if kind == 'stride' and arr.ndim >= 1:
+        big = np.zeros(arr.shape[:-1] + (2 * arr.shape[-1],), arr.dtype)
+        big[..., ::2] = arr
+        return big[..., ::2]
+    return arr
+
+
+@st.composite
+def input_layouts(draw, spec):
+    spec['memlayout'] = draw(st.sampled_from([None, None, 'swap', 'swap',
+                                              'F', 'stride']))
+    return spec['memlayout']
+
+
 def build_lib(spec, route='pnc', with_etflag=False):
     """in-memory library file holding the model's content, carrying the
     metadata the writer of spec['fmt'] documents/uses.
@@ -1013,9 +1038,17 @@ def build_lib(spec, route='pnc', with_etflag=False):
         f.createDimension('COL', spec['nx'])
         f._newstyle = spec['newstyle']
         for name, dims in creation_order(spec, lay):
-            v = f.createVariable(name, VDTYPES[spec.get('vdtype', 'f4')][0],
-                                 dims, **_fill_kw(spec))
-            v[...] = _masked_build(spec, as_vdtype(spec, m.vars[name][1]))
+            if spec.get('memlayout') and not spec.get('mask'):
+                v = f.createVariable(
+                    name, VDTYPES[spec.get('vdtype', 'f4')][0], dims,
+                    values=as_layout(spec, as_vdtype(spec,
+                                                     m.vars[name][1])))
+            else:
+                v = f.createVariable(
+                    name, VDTYPES[spec.get('vdtype', 'f4')][0], dims,
+                    **_fill_kw(spec))
+                v[...] = _masked_build(spec,
+                                       as_vdtype(spec, m.vars[name][1]))
             v.units = 'Fraction' if 'LANDUSE' in dims else ''
             v.long_name = name.ljust(16)
             v.var_desc = name.ljust(16)
@@ -1057,9 +1090,17 @@ def build_lib(spec, route='pnc', with_etflag=False):
             v.long_name = 'ETFLAG'.ljust(16)
             v.var_desc = 'ETFLAG'.ljust(80)
         for name, dims in creation_order(spec, lay):
-            v = f.createVariable(name, VDTYPES[spec.get('vdtype', 'f4')][0],
-                                 dims, **_fill_kw(spec))
-            v[...] = _masked_build(spec, as_vdtype(spec, m.vars[name][1]))
+            if spec.get('memlayout') and not spec.get('mask'):
+                v = f.createVariable(
+                    name, VDTYPES[spec.get('vdtype', 'f4')][0], dims,
+                    values=as_layout(spec, as_vdtype(spec,
+                                                     m.vars[name][1])))
+            else:
+                v = f.createVariable(
+                    name, VDTYPES[spec.get('vdtype', 'f4')][0], dims,
+                    **_fill_kw(spec))
+                v[...] = _masked_build(spec,
+                                       as_vdtype(spec, m.vars[name][1]))
             v.units = 'ppm'
             v.long_name = name.ljust(16)
             v.var_desc = name.ljust(80)
